@@ -1166,7 +1166,21 @@ Stylesheet::findTemplate(
 
     if(m_isWrapperless == true)
     {
-        return m_firstTemplate;
+        // A simplified stylesheet (a literal result element as stylesheet)
+        // is equivalent to a stylesheet with a single template rule that
+        // matches "/" (XSLT 2.3): it has no rule for any other node or
+        // in any mode, and it imports nothing.
+        if (onlyUseImports == false &&
+            mode.isEmpty() == true &&
+            (targetNodeType == XalanNode::DOCUMENT_NODE ||
+             targetNodeType == XalanNode::DOCUMENT_FRAGMENT_NODE))
+        {
+            return m_firstTemplate;
+        }
+        else
+        {
+            return 0;
+        }
     }
     else if (onlyUseImports == true)
     {
